@@ -157,7 +157,7 @@ namespace {
       const int n = int(rng.range(1, max_n));
       for (int i = 0; i < n && n_stmts < 25; ++i) {
         ++n_stmts;
-        const int k = int(rng.below(d <= 0 ? 12 : 24));
+        const int k = int(rng.below(d <= 0 ? 12 : 25));
         switch (k) {
         case 0:
         case 1:
@@ -260,6 +260,24 @@ namespace {
         case 21: {
           const std::string x = nm("r");
           out += "var &" + x + " = held_ref(); by_ref(" + x + "); ";
+          break;
+        }
+        case 22: {
+          // a C++ function that returns a reference to its (temporary / converted / variable) argument;
+          // the result is used later in the same statement or returned implicitly from a script function
+          std::string arg;
+          switch (rng.below(objs.empty() ? 3 : 4)) {
+          case 0: arg = "Tracked(" + num() + ")"; break;
+          case 1: arg = "TSource(" + num() + ")"; break;
+          case 2: arg = "make_value(" + num() + ")"; break;
+          default: arg = rng.pick(objs); break;
+          }
+          switch (rng.below(4)) {
+          case 0: out += "t(same(" + arg + ").value()); "; break;
+          case 1: out += "by_cref(same(" + arg + ")); "; break;
+          case 2: out += "t(mkref(" + num() + ").value()); "; break;
+          default: out += "t(same(same(" + arg + ")).value() + same(" + arg + ").value()); "; break;
+          }
           break;
         }
         default: {
@@ -384,7 +402,13 @@ namespace {
               }),
               "with_cb");
         e.add(fun([script_throw]() { return script_throw; }), "flag");
+        e.add(fun([](const Tracked &t) -> const Tracked & {
+                (void)t.value();
+                return t;
+              }),
+              "same");
         e.eval("def mk(n) { var tmp = Tracked(n); tmp.set_value(n + 1); return tmp }");
+        e.eval("def mkref(n) { same(Tracked(n)) }");
 
         Boxed_Value result;
         try {
